@@ -563,3 +563,100 @@ def vm_compute_crosscheck(ck, cases, coq_dir):
             bad += 1
     ck.oblige("extracted model = vm_compute inside Coq on %d sampled strings" % len(cases),
               bad == 0 and len(got) == len(cases), "%d differ, %d evaluated" % (bad, len(got)))
+
+
+# ---------------------------------------------------------------- structural JSON mutants (C18)
+
+JSON_BIG = [0, 1, (1 << 53) + 1, (1 << 63), (1 << 64) - 1, 10 ** 12, 10 ** 18, 10 ** 30, -1]
+
+
+def _paths(o, pre=()):
+    """All (path, value) pairs of a parsed JSON document."""
+    yield pre, o
+    if isinstance(o, dict):
+        for k, v in o.items():
+            yield from _paths(v, pre + (k,))
+    elif isinstance(o, list):
+        for i, v in enumerate(o):
+            yield from _paths(v, pre + (i,))
+
+
+def _edit(o, path, fn):
+    import copy
+    o = copy.deepcopy(o)
+    if not path:
+        return fn(None, None, o)
+    cur = o
+    for k in path[:-1]:
+        cur = cur[k]
+    fn(cur, path[-1], None)
+    return o
+
+
+def json_struct_mutants(text, rng, limit=60):
+    """Structural edits of a JSON document: drop a key, blow a number up, empty / null a value,
+    and PAIRS of such edits (a missing key together with a huge number elsewhere)."""
+    import json
+    try:
+        doc = json.loads(text)
+    except Exception:
+        return []
+    paths = [p for p, _ in _paths(doc) if p]
+    singles = []
+    for p in paths:
+        v = doc
+        for k in p:
+            v = v[k]
+
+        def dele(cur, k, _):
+            if isinstance(cur, dict):
+                cur.pop(k, None)
+            else:
+                del cur[k]
+        singles.append(("del", p, dele))
+        if isinstance(v, int) and not isinstance(v, bool):
+            for b in JSON_BIG:
+                singles.append(("num", p, (lambda b: lambda cur, k, _: cur.__setitem__(k, b))(b)))
+        if isinstance(v, list):
+            singles.append(("empty", p, lambda cur, k, _: cur.__setitem__(k, [])))
+        singles.append(("null", p, lambda cur, k, _: cur.__setitem__(k, None)))
+    out = []
+    rng.shuffle(singles)
+    for (_, p, fn) in singles[:limit]:
+        try:
+            out.append(json.dumps(_edit(doc, p, fn), separators=(",", ":")))
+        except Exception:
+            pass
+    # sibling pairs: drop one key of an object and blow up a number in the SAME object (all of them for small objects)
+    sib = []
+    for p, v in _paths(doc):
+        if isinstance(v, dict) and 2 <= len(v) <= 12:
+            for kd in v:
+                for kn, vn in v.items():
+                    if kn != kd and isinstance(vn, int) and not isinstance(vn, bool):
+                        for b in ((1 << 64) - 1, 10 ** 15):
+                            sib.append((p, kd, kn, b))
+    rng.shuffle(sib)
+    for (p, kd, kn, b) in sib[:limit * 8]:
+        import copy
+        d = copy.deepcopy(doc)
+        cur = d
+        for k in p:
+            cur = cur[k]
+        cur.pop(kd, None)
+        cur[kn] = b
+        out.append(json.dumps(d, separators=(",", ":")))
+    # pairs: one deletion + one number edit at an unrelated path
+    dels = [x for x in singles if x[0] == "del"]
+    nums = [x for x in singles if x[0] == "num"]
+    for _ in range(min(limit, len(dels) * len(nums))):
+        a, b = rng.choice(dels), rng.choice(nums)
+        if a[1][:len(b[1])] == b[1] or b[1][:len(a[1])] == a[1]:
+            continue
+        try:
+            d = _edit(doc, b[1], b[2])
+            d = _edit(d, a[1], a[2])
+            out.append(json.dumps(d, separators=(",", ":")))
+        except Exception:
+            pass
+    return out
